@@ -118,6 +118,10 @@ pub fn kind_name(k: u8) -> &'static str {
 
 impl Hook for SimHook {
     fn before(&self, a: &Access) -> bool {
+        // destructors running while a cut run unwinds must not re-enter the simulator
+        if std::thread::panicking() {
+            return false;
+        }
         match mode() {
             Mode::Off => false,
             Mode::St => ST.with(|st| {
@@ -161,6 +165,9 @@ impl Hook for SimHook {
     }
 
     fn after(&self, a: &Access) {
+        if std::thread::panicking() {
+            return;
+        }
         match mode() {
             Mode::Off => {}
             Mode::St => ST.with(|st| {
@@ -175,6 +182,9 @@ impl Hook for SimHook {
     }
 
     fn plain_write(&self, addr: usize, len: usize, what: &'static str) {
+        if std::thread::panicking() {
+            return;
+        }
         match mode() {
             Mode::Off => {}
             Mode::St => ST.with(|st| {
@@ -194,6 +204,9 @@ impl Hook for SimHook {
     }
 
     fn teardown(&self, addr: usize, len: usize) {
+        if std::thread::panicking() {
+            return;
+        }
         match mode() {
             Mode::Off => {}
             Mode::St => ST.with(|st| st.borrow_mut().teardowns += 1),
